@@ -258,6 +258,24 @@ def slices_rules(prog, rep):
     I.run(fi)
     self_t = tm.param("self")
     where = fi.fq
+    # every slice keeps the PARENT's common value: the cube differences each block at dim.common of the parent index, so a
+    # slice re-normalised to its own most frequent category (shift_common) has its cells exchanged in that block
+    Ini = Interp(prog, hints.param_types_for("iindexes"), hints.FIELD_TYPES, inline=False)
+    Ini.run(fi)
+    ctor0 = [e for e in Ini.events if e.kind == "call" and e["name"] in ("iindexes:iindex",) or (e.kind == "call" and e["method"] == "__class__")]
+    commons = [e["args"][1] for e in Ini.events if e.kind == "call" and e["name"] == "iindexes:iindex" and len(e["args"]) >= 2]
+    movers = [e for e in Ini.events if e.kind == "call" and e["method"] in ("shift_common",) and e["recv"] is not None and e["recv"] != self_t]
+    cons_c = "every 1-D slice is encoded with the parent's common value"
+    if movers:
+        rep.violated("R-C13-b", "%s@%d" % (where, movers[0].line), cons_c,
+                     "a slice is re-normalised with %s() before it is handed out: its common value may differ from the parent's, while the cube reconstructs the common cell of every block at the PARENT's dim.common"
+                     % movers[0]["method"], witness={"inputs": "a 2-axis index with one column whose most frequent category is not the index-wide common value: in that block the two categories' cells are exchanged (one becomes NaN)"})
+    elif commons and all(c == T("attr", self_t, "common") for c in commons):
+        rep.proved("R-C13-b", where, cons_c, "sub-indexes are built with self.common and not re-normalised")
+    elif commons:
+        rep.undecided("R-C13-b", where, cons_c, "a sub-index is built with common value %s: not recognisably self.common" % tm.show([c for c in commons if c != T("attr", self_t, "common")][0])[:50])
+    else:
+        rep.undecided("R-C13-b", where, cons_c, "no sub-index construction found in slices1d")
     # the sub-rules below read the RECURSIVE generator (bucket by last coordinate, recurse on shape[:-1] with the coordinate
     # prepended, yield (coords, self) at the bottom); any other algorithm (an explicit stack, itertools) is not decided here
     if not [e for e in I.events if e.kind == "call" and e["method"] == "slices1d" and not e.stack]:
